@@ -23,17 +23,26 @@ PID = "C18"
 LEAN_TARGETS = ["SpecVerif.Props.C18"]
 AUDIT = [("SpecVerif.Props.C18", "SpecVerif.Props.C18")]
 DRIVER = "Drivers/C18.lean"
-REQUIRED_THEOREMS_FINAL = [
+REQUIRED_THEOREMS = [
     "SpecVerif.Props.C18." + n
     for n in (
-        "mirrors", "shadow", "shadow_persists", "delete_restores", "passthrough_rt", "passthrough_del",
-        "fallback_fresh", "fresh_ids_increase", "missing_raises",
-        "lens_put_get", "lens_get_put", "lens_put_put", "lens_commute",
-        "path_roundtrip_render", "path_roundtrip_parse", "path_roundtrip_segs",
-        "deprecated_same", "copy_carries", "olds_frame", "passthrough_never_overrides", "two_variable",
+        "mirrors", "mirrors_plain", "mirrors_transformed", "missing_raises", "fallback_fresh", "fallback_atomic",
+        "fresh_ids_increase", "shadow", "shadow_type_checked", "shadow_persists", "delete_restores",
+        "two_variable", "alias_ops_leave_host", "passthrough_never_overrides",
+        "passthrough_rt", "passthrough_set_inv", "passthrough_set_missing", "passthrough_del",
+        "lens_put_get", "lens_get_put", "lens_put_put", "lens_frame", "lens_frame_remove",
+        "lens_commute_partial", "lens_commute_content", "lens_commute_full_fails",
+        "deprecated_same", "copy_carries", "olds_frame", "cow_is_copy_then_write",
+        "path_roundtrip_render", "path_roundtrip_parse", "path_accepted_iff", "path_rejected_iff",
+        "path_roundtrip_segs", "identifier_shortcut",
     )
 ]
-REQUIRED_THEOREMS = ["SpecVerif.Props.C18.missing_raises"]
+OPEN_STATEMENTS = [
+    "LensCommuteFull (writes at diverging paths commute with no side condition) is false as a literal equality: two new "
+    "keys in one map end up in a different insertion order (theorem lens_commute_full_fails); proved instead: "
+    "lens_commute_partial (literal equality when one of the targets exists) and lens_commute_content (no side condition: "
+    "both orders succeed, hold both values and agree with the original everywhere else)",
+]
 RULE = (
     "state-machine cases = (plain|spec host) x (Alias|DeprecatedAlias|AttrProxy) x passthrough x transform(none, total, "
     "raising AttributeError) x fallback(none, int, list) x type-checked annotation x path shape (plain, dotted, item, "
@@ -87,6 +96,8 @@ SHAPES = {
         "segs": [A("d"), I("k.j"), A("x")],
         "prefix": [("d", [A("d")], "D"), ('d["k.j"]', [A("d"), I("k.j")], "O")],
     },
+    # an item key that needs an escape in the path string
+    "E": {"path": 'd["q\\"q"]', "segs": [A("d"), I('q"q')], "prefix": [("d", [A("d")], "D")]},
 }
 INITS = ("present", "leaf", "noprefix")
 
@@ -385,16 +396,16 @@ class Run:
                 self.new_cur(h.with_x(v))
             elif sh == "D":
                 self.new_cur(h.update_sub(x=v))
-            elif sh == "I":
-                self.new_cur(h.with_d_item("k", v))
+            elif sh in ("I", "E"):
+                self.new_cur(h.with_d_item(self.segs[-1][1], v))
             else:
                 raise RuntimeError("cwt not defined for this shape")
         elif name == "cdt":
             sh = case["shape"]
             if sh == "P":
                 self.new_cur(h.reset_x())
-            elif sh == "I":
-                self.new_cur(h.without_d_item("k"))
+            elif sh in ("I", "E"):
+                self.new_cur(h.without_d_item(self.segs[-1][1]))
             else:
                 raise RuntimeError("cdt not defined for this shape")
         else:
@@ -451,7 +462,10 @@ def real_parse(s):
 def real_lines(case):
     if "parse" in case:
         return [real_parse(case["parse"])]
-    run = Run(case)
+    try:
+        run = Run(case)
+    except ValueError as e:  # the alias (a valid path by construction) could not be built
+        return [f"construction-failed ValueError: {e}"]
     run.start()
     want = 1 if case["kind"] == "proxy" else 0  # AttrProxy warns once when it is constructed; nothing else does
     out = ["ok" if run.ctor_warns == want else f"construction-warnings={run.ctor_warns}"]
@@ -521,7 +535,10 @@ def oracle(case):
             viol.append(f"Alias({case['parse']!r}): observed {got!r}, the path means {want!r}")
         return viol
 
-    run = Run(case)
+    try:
+        run = Run(case)
+    except ValueError as e:
+        return [f"Alias({SHAPES[case['shape']]['path']!r}) cannot be constructed: {e}"]
     run.start()
     for _p, segs, tok in puts_of(case):
         run.put(segs, tok)
@@ -689,11 +706,12 @@ def oracle(case):
 CORE_OPS_PLAIN = [["ra"], ["wa", None], ["da"], ["rt"], ["wt", None], ["dt"], ["cp"]]
 CORE_OPS_SPEC = CORE_OPS_PLAIN + [["cwa", None], ["cwt", None]]
 VALUES = ["i2", "i3", "i-4", "s0"]
-FALLBACKS = ["-", "i5", "L7,8"]
+FALLBACKS = ["-", "i0", "L7,8"]  # a falsy scalar and a mutable value
+MORE_FALLBACKS = ["-", "i0", "i5", "L7,8", "L"]
 
 
 def cow_target_ok(shape):
-    return shape in ("P", "D", "I")
+    return shape in ("P", "D", "I", "E")
 
 
 def all_ops(case):
@@ -707,7 +725,7 @@ def all_ops(case):
         ops += [["cwa", v] for v in VALUES] + [["cra"]]
         if cow_target_ok(case["shape"]) and case["init"] != "noprefix":
             ops += [["cwt", v] for v in VALUES[:3:2] + ["s0"]]
-            if case["shape"] in ("P", "I"):
+            if case["shape"] in ("P", "I", "E"):
                 ops += [["cdt"]]
     return ops
 
@@ -767,7 +785,7 @@ def random_config(rng):
         "kind": rng.choice(["alias", "alias", "dep", "dep", "proxy"]),
         "pass": rng.choice([0, 1]),
         "tr": rng.choice([0, 1, 2]),
-        "fb": rng.choice(FALLBACKS),
+        "fb": rng.choice(MORE_FALLBACKS),
         "chk": rng.choice([0, 1]) if host == "spec" else 0,
         "shape": shape,
         "init": rng.choice(INITS[:2] if shape == "P" else INITS),
@@ -784,6 +802,8 @@ PARSER_CORPUS = [
     ("a.", "invalid"), (".b", "invalid"), ("c[]", "invalid"), ("c[[", "invalid"), ("c.['d']", "invalid"),
     ("a..b", "invalid"), ("a[0]", "invalid"), ("a[k]", "invalid"), ("a b", "invalid"), ("a.b.", "invalid"),
     ('a["k"', "invalid"), ("a['k\"]", "invalid"), ("a-b", "invalid"), (".", "invalid"), ("[", "invalid"),
+    ('c.["d"]', "invalid"), ('["a"].["b"]', "invalid"), ('a.["k"].b', "invalid"), ("a.['k'].b", "invalid"),
+    ('a["k"]..b', "invalid"), ('.["k"]', "invalid"), ('a["k"].', "invalid"), ('a["k]', "invalid"), ("a['k]", "invalid"),
     ("x", [A("x")]), ("a.b", [A("a"), A("b")]), ('a["k"]', [A("a"), I("k")]), ("a['k']", [A("a"), I("k")]),
     ('a["k"].b', [A("a"), I("k"), A("b")]), ("a['k'].b", [A("a"), I("k"), A("b")]),
     ('a["k.j"]', [A("a"), I("k.j")]), ('a["k.j"].b.c', [A("a"), I("k.j"), A("b"), A("c")]),
@@ -856,6 +876,27 @@ def mutate(s, rng):
     return s
 
 
+def break_path(segs, rng):
+    """a string outside the path grammar, built from a valid rendering (invalid by construction)"""
+    s = render_path(segs, rng)
+    kind = rng.choice(["lead-dot", "trail-dot", "double-dot", "dot-bracket", "unquoted", "unclosed", "space"])
+    if kind == "lead-dot":
+        return "." + s
+    if kind == "trail-dot":
+        return s + "."
+    if kind == "space":
+        return s + " " if rng.random() < 0.5 else " " + s
+    if kind == "double-dot":
+        segs = segs + [A("z")]
+        return render_path(segs[:-1], rng) + "..z"
+    if kind == "dot-bracket":
+        segs = segs + [I("k")]
+        return render_path(segs[:-1], rng) + "." + render_key("k", rng)
+    if kind == "unquoted":
+        return s + "[k]"
+    return s + rng.choice(['["k"', "['k'", '["k]', "['k]", "[", '["'])
+
+
 def parser_cases(tier, rng):
     for s, exp in PARSER_CORPUS:
         yield {"parse": s, "expect": exp, "origin": "parser-corpus"}
@@ -876,6 +917,9 @@ def parser_cases(tier, rng):
         m = mutate(s, rng)
         if in_scope(m):
             yield {"parse": m, "origin": "parser-mutated"}
+        b = break_path(segs, rng)
+        if in_scope(b):
+            yield {"parse": b, "expect": "invalid", "origin": "parser-invalid"}
 
 
 def gen_cases(tier, rng):
@@ -899,7 +943,7 @@ def gen_cases(tier, rng):
     # 1. every single op (followed by a read of alias and target) from every configuration
     cfgs = list(configs(trs=(0, 1, 2) if not quick else (0, 1)))
     if quick:
-        cfgs = rng.sample(cfgs, len(cfgs) // 3)
+        cfgs = rng.sample(cfgs, len(cfgs) // 2)
     for c in cfgs:
         for op in all_ops(c):
             yield {**c, "ops": [list(op), ["ra"], ["rt"]], "origin": "single-op"}
@@ -908,29 +952,29 @@ def gen_cases(tier, rng):
         if c["host"] == "spec" and c["shape"] == "P" and c["init"] == "present":
             for v in VALUES:
                 yield {**c, "ctor": v, "ops": [["ra"], ["rt"], ["da"], ["ra"]], "origin": "ctor"}
-    # 3. ALL sequences of the core alphabet up to length L for a seeded sample of configurations
-    L = 3 if quick else 4
-    nsample = 10 if quick else 60
+    # 3. ALL sequences of the core alphabet of length L (their prefixes are compared line by line, so this covers
+    #    every length <= L) for a seeded sample of configurations; the samples cycle through shapes and hosts
+    plan = [(3, 10, 10), (4, 1, 1)] if quick else [(4, 30, 30), (5, 2, 4), (6, 1, 0)]
     pool = list(configs(kinds=("alias", "dep", "proxy"), trs=(0, 1, 2)))
-    # the first picks cycle through the shapes and both host kinds so that every run has them all
-    picks = []
-    for i in range(nsample):
-        want_shape = list(SHAPES)[i % len(SHAPES)]
-        want_host = ("plain", "spec")[(i // len(SHAPES)) % 2]
-        cands = [c for c in pool if c["shape"] == want_shape and c["host"] == want_host]
-        picks.append(rng.choice(cands))
-    for c in picks:
-        core = CORE_OPS_SPEC if c["host"] == "spec" else CORE_OPS_PLAIN
-        for seq in itertools.product(core, repeat=L):
-            ops = sanitize(c, fill_values(seq))
-            if len(ops) == L:
-                yield {**c, "ops": ops, "origin": f"all-seq-{L}"}
+    shapes = list(SHAPES)
+    for L, nplain, nspec in plan:
+        off = rng.randrange(len(shapes))
+        picks = []
+        for host, count in (("plain", nplain), ("spec", nspec)):
+            for i in range(count):
+                want_shape = shapes[(off + i) % len(shapes)]
+                cands = [c for c in pool if c["shape"] == want_shape and c["host"] == host]
+                picks.append(rng.choice(cands))
+        for c in picks:
+            core = CORE_OPS_SPEC if c["host"] == "spec" else CORE_OPS_PLAIN
+            for seq in itertools.product(core, repeat=L):
+                ops = sanitize(c, fill_values(seq))
+                if len(ops) == L:
+                    yield {**c, "ops": ops, "origin": f"all-seq-{L}"}
     # 4. seeded random sequences (full alphabet, all value kinds) for every configuration
     nper = 2 if quick else 12
     maxlen = 5 if quick else 6
     for c in configs(kinds=("alias", "dep", "proxy"), trs=(0, 1, 2)):
-        if quick and rng.random() < 0.5:
-            continue
         for _ in range(nper):
             yield {**c, "ops": random_ops(c, rng, rng.randint(3, maxlen)), "origin": "random"}
 
